@@ -857,6 +857,15 @@ theorem match_scaled_target_decided_at_tol {α : Type} (src : Vol α) (T : Geom)
     ((∃ i, tol < rabs (e i)) → matchGeometry src T tol c = .error .runtime) :=
   matchGeometry_scaled src T tol c hwf hshape h0 h1 p first st hp hst hdir hpos hcs hfor e he hsp
 
+/-- **Rotation beyond the tolerance, whole call**: if some target axis is within tolerance of no source axis — for every source
+axis `j` the dot product `d` of the unit vectors has neither `|d - 1| < tol` nor `|d + 1| < tol` — `match_geometry` raises
+RuntimeError (same coordinate system, no conflicting frame of reference; any source, any tolerance). -/
+theorem match_rotated_target_refused {α : Type} (src : Vol α) (T : Geom) (tol : Rat) (c : PadMode α)
+    (hcs : T.cs = src.geom.cs) (hfor : forConflict src.geom T = false) (i : Ax)
+    (h : ∀ j, ¬ (rabs (V3.dot (T.dir i) (src.geom.dir j) - 1) < tol ∨ rabs (V3.dot (T.dir i) (src.geom.dir j) + 1) < tol)) :
+    matchGeometry src T tol c = .error .runtime :=
+  matchGeometry_unaligned_refused src T tol c hcs hfor i h
+
 /-! ## frame of reference of the result -/
 
 /-- **The matched volume keeps the SOURCE's frame of reference and coordinate system** (it does not adopt the target's): when
@@ -883,6 +892,11 @@ theorem match_own_geometry {α : Type} (src : Vol α) (tol : Rat) (mode : PadMod
   exact ((match_sound src src.geom tol mode hlaw r hwf.det_ne_zero hr1).2 k hk').1 k hk href.symm
 
 /-! ## non-vacuity (round 2) -/
+
+/-- the round-1 target rotated by a 3-4-5 rotation about z: its axis 1 has dot products 3/5, 4/5, 0 with the source axes -/
+example : (match matchGeometry exSrc { exTgt with dir := mk3 ⟨0, 0, -1⟩ ⟨3 / 5, 4 / 5, 0⟩ ⟨-4 / 5, 3 / 5, 0⟩ } (1 / 100000) (.constant (-7)) with
+    | .ok _ => false
+    | .error e => e == .runtime) = true := by decide +kernel
 
 /-- spacing of target axis 0 (two source voxels of spacing 2, backwards) off by `e = 1/1000000` source spacings: matched;
 off by `e = 1/4`: refused -/
